@@ -10,12 +10,16 @@
 -/
 import Driver.C05
 import Driver.C16
+import Driver.Wild
 
 open Corerad
 
 def handlers : List (String × (List String → List String → Option Verdict)) := [
   ("md", Driver.C05.md), ("mloop", Driver.C05.mloop),
-  ("pl", Driver.C16.pl), ("rl", Driver.C16.rl)
+  ("pl", Driver.C16.pl), ("rl", Driver.C16.rl),
+  ("wp", Driver.Wild.wp), ("wperr", Driver.Wild.wperr),
+  ("wd", Driver.Wild.wd), ("wderr", Driver.Wild.wderr),
+  ("wr", Driver.Wild.wr), ("wrerr", Driver.Wild.wrerr)
 ]
 
 def runLine (line : String) : String :=
